@@ -273,8 +273,10 @@ MoveAssign ==
 
 (* move constructor: delegates to the default constructor, then operator=(&&), which swaps
    _page_allocator but NOT _upstream: the new object points to new_delete_resource() *)
+\* (until fix e659057 the move constructor left the new object with new_delete_resource() as upstream:
+\*  up' = "dflt"; the repaired code swaps _upstream like everything else)
 MoveConstruct ==
-  /\ up' = "dflt"
+  /\ UNCHANGED up
   /\ ev' = [NoEv EXCEPT !.op = "mvc"]
   /\ UNCHANGED <<P, pas, oas, das, fb, fe, used, alloc, nd, blocks, intact, dj, ins, pages, ulive, ucur>>
 
